@@ -75,7 +75,7 @@ func genC03Cases(e *Env) []xferCase {
 			for s := 1; s <= 8; s++ {
 				for _, conns := range []int{1, 2, 4} {
 					for _, resume := range []bool{false, true} {
-						if !e.Thorough() && r.Intn(100) >= 14 {
+						if !e.Thorough() && r.Intn(100) >= 30 {
 							continue
 						}
 						if e.Thorough() && r.Intn(100) >= 60 {
@@ -93,7 +93,7 @@ func genC03Cases(e *Env) []xferCase {
 		}
 	}
 	// (b) name classes and special shapes (production options)
-	nameN := e.Pick(3, 12)
+	nameN := e.Pick(6, 12)
 	for _, nc := range vk.NameClasses {
 		if nc == "longpath" {
 			continue
@@ -107,7 +107,7 @@ func genC03Cases(e *Env) []xferCase {
 		}
 	}
 	for _, sh := range []string{"empty", "dirsonly", "zerolen", "longpath", "fewchunks", "boundary"} {
-		for k := 0; k < e.Pick(3, 20); k++ {
+		for k := 0; k < e.Pick(8, 20); k++ {
 			c := xferCase{Shape: sh, Names: "plain", TSeed: r.U64()}
 			c.Cfg.Streams, c.Cfg.Resume = 1+r.Intn(8), r.Bool()
 			c.Cfg.Conns = 1 + r.Intn(2)
@@ -118,7 +118,7 @@ func genC03Cases(e *Env) []xferCase {
 	}
 	// (c) resume histories
 	for _, h := range []string{"partial", "complete", "late-report", "partial+late-report"} {
-		for k := 0; k < e.Pick(8, 120); k++ {
+		for k := 0; k < e.Pick(90, 160); k++ {
 			c := xferCase{Shape: []string{"boundary", "manysmall", "nested", "onefile"}[r.Intn(4)], Names: "plain", TSeed: r.U64(), History: h}
 			c.Cfg.Streams, c.Cfg.Resume = 1+r.Intn(4), true
 			c.Cfg.Conns = 1 + r.Intn(2)
@@ -128,7 +128,7 @@ func genC03Cases(e *Env) []xferCase {
 		}
 	}
 	// (d) random beyond the grid
-	for k := 0; k < e.Pick(40, 1500); k++ {
+	for k := 0; k < e.Pick(500, 1500); k++ {
 		c := xferCase{Shape: []string{"onefile", "manysmall", "nested", "fewchunks", "boundary", "zerolen"}[r.Intn(6)], Names: []string{"plain", "unicode", "dotdash", "backslash", "control", "long255"}[r.Intn(6)], TSeed: r.U64()}
 		c.Cfg.Streams, c.Cfg.Resume = 1+r.Intn(8), r.Bool()
 		c.Cfg.Conns = 1 + r.Intn(4)
@@ -308,7 +308,7 @@ func runC03(e *Env) {
 	})
 	e.R.SetExtra("hangs", hangs)
 	e.R.SetExtra("hook_hits", verifhook.AllHits())
-	e.R.Require(e.R.Counter("completed") >= e.Pick(100, 1500), fmt.Sprintf("only %d transfers completed", e.R.Counter("completed")))
+	e.R.Require(e.R.Counter("completed") >= e.Pick(700, 1500), fmt.Sprintf("only %d transfers completed", e.R.Counter("completed")))
 }
 
 func errS(e error) string {
